@@ -38,8 +38,9 @@ finally:
 rc = p.wait()
 out = open(logp, errors="replace").read()
 lines = [l for l in out.splitlines() if l.startswith(("VIOLATION", "INCONCLUSIVE", "SUMMARY", "KNOWN-FINDING", "  failed:")) or "] " in l and (" fail " in l or " pass " in l or "inconclusive" in l)]
-res = {"seed": name, "cmd": " ".join(cmd), "exit": rc, "detected": rc == 1, "lines": lines[-40:]}
+viol = any(l.startswith("VIOLATION") for l in out.splitlines())
+res = {"seed": name, "cmd": " ".join(cmd), "exit": rc, "detected": rc == 1 and viol, "lines": lines[-40:]}
 json.dump(res, open(os.path.join(seed, "result-%s.json" % label), "w"), indent=1)
-print("%s %s exit=%d %s" % (name, label, rc, "DETECTED" if rc == 1 else ("inconclusive" if rc == 2 else "missed")))
+print("%s %s exit=%d %s" % (name, label, rc, "DETECTED" if (rc == 1 and viol) else ("inconclusive" if rc == 2 else ("driver error" if rc == 1 else "missed"))))
 for l in lines[-12:]:
     print("   ", l)
